@@ -207,7 +207,7 @@ def step_state(l3, machine, sidx, sym_is_end, alloc, stats, want=('c06', 'c03', 
             r, mdl = getmodel(list(f.pc) + [f.cond])
             if r == z3.sat:
                 nfail += 1
-                findings.append({'kind': 'c03-mem', 'what': f.kind, 'detail': f.detail, 'ins': f.ins, **witness(mdl)})
+                findings.append({'kind': 'c03-mem', 'what': f.kind, 'detail': f.detail, 'ins': f.ins, '_cond': list(f.pc) + [f.cond], '_data': data, '_byte': b, **witness(mdl)})
             elif r == z3.unknown:
                 d['inconclusive'].append(f'C03 mem {key} {f.kind}')
         d['discharged'] += ex.n_obl - len(ex.fails)
@@ -217,7 +217,7 @@ def step_state(l3, machine, sidx, sym_is_end, alloc, stats, want=('c06', 'c03', 
         for p in ex.paths:
             if p.kind != 'RET':
                 continue
-            for nm_, c in l3.inv_post(p.mem):
+            for nm_, c in l3.inv_post(p.mem) + l3.leak_conds(p.mem):
                 d['obligations'] += 1
                 cs = z3.simplify(c)
                 if z3.is_true(cs):
@@ -228,7 +228,7 @@ def step_state(l3, machine, sidx, sym_is_end, alloc, stats, want=('c06', 'c03', 
                     d['discharged'] += 1
                     d['nontrivial'].append('c03inv:' + key + ':' + nm_)
                 elif r == z3.sat:
-                    findings.append({'kind': 'c03-inv', 'what': 'post-state invariant', 'detail': nm_, **witness(mdl)})
+                    findings.append({'kind': 'c03-inv', 'what': 'post-state invariant', 'detail': nm_, '_cond': list(p.pc) + [z3.Not(c)], '_data': data, '_byte': b, **witness(mdl)})
                 else:
                     d['inconclusive'].append(f'C03 inv {key} {nm_}')
     # ---- C04: unwinding
@@ -313,3 +313,77 @@ def _amask(alloc):
     if alloc is None:
         return '-'
     return ''.join('A' if v else 'N' for _, v in sorted(alloc.items()))
+
+
+def start_check(l3, stats, timeout_ms=20000):
+    """<p>_start on completely arbitrary memory: safety obligations + establishes Inv"""
+    d = stats.d
+    findings = []
+    solver = z3.Solver(); solver.set('timeout', timeout_ms)
+    mem = l3.raw_image()
+    sx = {'queries': 0, 'solver_time': 0.0}
+    ex = l3.call1('start', mem, solver, [], sx, max_steps=4000)
+    d['queries'] += sx['queries']; d['solver_time'] += sx['solver_time']
+    d['obligations'] += ex.n_obl
+    d['discharged'] += ex.n_obl - len(ex.fails)
+    d['cov']['mem_obligations'] += ex.n_obl
+    label = getattr(l3, 'label', '?')
+    for f in ex.fails:
+        findings.append({'kind': 'c03-mem', 'what': f.kind, 'detail': f.detail, 'ins': f.ins, 'sym': 'start', 'pre': {'state': -1, 'vals': {}, 'strs': {}}})
+    for p in ex.paths:
+        if p.kind != 'RET':
+            continue
+        for nm_, c in l3.inv_post(p.mem) + l3.leak_conds(p.mem):
+            n0 = nm_.split(' ')[1] if nm_.startswith(('bool ', 'enum ')) else None
+            if n0 is not None and l3.comp.spec[n0].default_value is None:
+                continue   # outputs without a default are indeterminate after start() by design (documented: no defaults for enums)
+            d['obligations'] += 1
+            solver.push(); solver.add(*p.pc, z3.Not(c))
+            r, mdl = symx.robust_check(solver); d['queries'] += 1
+            solver.pop()
+            if r == z3.unsat:
+                d['discharged'] += 1
+                d['nontrivial'].append(f'c03start:{label}:{nm_}')
+            elif r == z3.sat:
+                findings.append({'kind': 'c03-inv', 'what': 'start() does not establish the invariant', 'detail': nm_, 'sym': 'start', 'pre': {'state': -1, 'vals': {}, 'strs': {}}})
+            else:
+                d['inconclusive'].append(f'C03 start {label} {nm_}')
+    return findings
+
+
+def free_check(l3, stats, timeout_ms=20000):
+    """<p>_free from any Inv state: every live buffer freed exactly once, pointers NULL, a second call is harmless"""
+    d = stats.d
+    findings = []
+    if not l3.dynamic:
+        return findings
+    label = getattr(l3, 'label', '?')
+    for alloc in alloc_masks(l3):
+        solver = z3.Solver(); solver.set('timeout', timeout_ms)
+        data, inv0 = l3.layout.symbolic()
+        inv = pre_inv(l3, data, inv0, alloc)
+        mem = l3.image(0, data, alloc)
+        sx = {'queries': 0, 'solver_time': 0.0}
+        ex = l3.call1('free', mem, solver, inv, sx)
+        d['obligations'] += ex.n_obl; d['discharged'] += ex.n_obl - len(ex.fails)
+        pre = {'state': 0, 'vals': {}, 'strs': {}}
+        for f in ex.fails:
+            findings.append({'kind': 'c03-mem', 'what': f.kind, 'detail': f.detail, 'ins': f.ins, 'sym': 'free', 'pre': pre, 'alloc': _amask(alloc)})
+        for p in ex.paths:
+            if p.kind != 'RET':
+                continue
+            conds = [(f'{n}: pointer NULL after free()', z3.BoolVal(isinstance(l3.str_ptr(p.mem, n), llsym.Ptr) and l3.str_ptr(p.mem, n).obj is None)) for n in l3.dynstrs]
+            conds.append(('no heap object left live after free()', z3.BoolVal(not l3.live_heap(p.mem))))
+            for nm_, c in conds:
+                d['obligations'] += 1
+                if z3.is_true(z3.simplify(c)):
+                    d['discharged'] += 1
+                else:
+                    findings.append({'kind': 'c03-inv', 'what': 'free() leaves memory behind', 'detail': nm_, 'sym': 'free', 'pre': pre, 'alloc': _amask(alloc)})
+            ex2 = l3.call1('free', p.mem.copy(), solver, list(inv) + list(p.pc), sx)
+            d['obligations'] += ex2.n_obl; d['discharged'] += ex2.n_obl - len(ex2.fails)
+            for f in ex2.fails:
+                findings.append({'kind': 'c03-mem', 'what': 'second free(): ' + f.kind, 'detail': f.detail, 'ins': f.ins, 'sym': 'free', 'pre': pre, 'alloc': _amask(alloc)})
+        d['queries'] += sx['queries']; d['solver_time'] += sx['solver_time']
+        d['nontrivial'].append(f'c03free:{label}:{_amask(alloc)}')
+    return findings
